@@ -338,6 +338,7 @@ func init() {
 		Rule: "tables built through the public API (AddHeaders / AddRowItems / NewRow+Add+AddRow / AppendNewRow+Add / AddSeparator); " +
 			"every shape with header in {none,0,1,2 cells} and up to 3 rows over {separator,0,1,2 cells} (texts from a quote/comma/CR/LF/NUL/0xFF alphabet), " +
 			"every single field over all strings of length <= 2 of a 7-byte alphabet in first/last/padded position, and random tables to 6x6 over all 256 byte values; " +
+			"records of 509 B .. 8 KiB (thorough: to 70 KB) before, between and after small ones, fields of 15..257 quote characters (alone and after a longer plain field), 700 small records, tables of 9..47 columns; a render-time callback that renders the same wrapper again (enrichSpec: Reenter); " +
 			"a case is non-trivial when the table has at least one column (rendering is attempted); distinct = distinct (view, outcome)",
 		Exhaustive: "shapes (header x row-sequence up to length 3) and all 57 strings of length<=2 over 7 hostile bytes in 3 field positions",
 		Gen: func(r *RNG, tier string) []json.RawMessage {
@@ -392,6 +393,14 @@ func init() {
 				default:
 					add(TableSpec{Rows: []RowSpec{bigRow, small, {Sep: true}, bigRow, small}, FinalVia: 1})
 				}
+			}
+			// fields made of quote characters at the sizes of small scratch buffers,
+			// first in a fresh wrapper's life and after a longer plain field
+			for _, n := range []int{15, 16, 17, 31, 32, 33, 63, 64, 65, 127, 128, 129, 255, 256, 257} {
+				q := strings.Repeat(`"`, n)
+				h := []ItemSpec{Str("h1"), Str("h2")}
+				add(TableSpec{Header: &h, Rows: []RowSpec{{Cells: []ItemSpec{Str(q), Str("y")}}}})
+				add(TableSpec{Rows: []RowSpec{{Cells: []ItemSpec{Str(strings.Repeat("p", n)), Str(q + `"`)}}, {Cells: []ItemSpec{Str("x" + q[1:]), Str(q[:n-1] + ",")}}}, FinalVia: n % 2})
 			}
 			// many small records (a batch fills up), and many columns
 			{
